@@ -363,7 +363,7 @@ def read_marker(ctx, p):
         if e.kind == 'call':
             if any(c in ('ext:APPLY',) for c in e.callee):
                 return ''
-            if any(c.split('.')[-1] in new for c in e.callee):
+            if any(part_ in new for c in e.callee for part_ in c.split('.')):
                 return ''
             # a method call the typing did not resolve although the package defines a method of that name: what it did is unknown
             from .model import CONTAINER_METHODS
